@@ -31,3 +31,13 @@ From Rsbdd Require Import Syntax.Token Syntax.Parser Gen.GenText.
 Theorem C17_tokens r hints : parse (chain_tokens (sudoku_items r hints) ++ TEof :: nil) = Ok (sudoku_form r hints) nil.
 Proof. exact (GenText.C17_tokens r hints). Qed.
 Print Assumptions C17_tokens.
+
+(** the tie by translation (DESIGN 15.7c): the three constraint nests of sudoku_gen/src/main.rs are re-read on every run and proved,
+    for all r, to be cell_lists / rowcol_lists / box_lists (generated lemmas fam_1 .. fam_3) *)
+From Rsbdd Require Import Lang.Ast Gen.GenText Gen.SrcLoops.
+Theorem C17_source_three r hints f1 f2 f3 :
+  f1 = Sudoku.cell_lists r -> f2 = Sudoku.rowcol_lists r -> f3 = Sudoku.box_lists r ->
+  map (fun h => IVar (Sudoku.vid r (fst h) (snd h))) hints ++
+  map (ICount false Exactly) f1 ++ map (ICount false Exactly) f2 ++ map (ICount false Exactly) f3 ++ nil = sudoku_items r hints.
+Proof. exact (sudoku_items_three r hints f1 f2 f3). Qed.
+Print Assumptions C17_source_three.
